@@ -13,7 +13,8 @@ import time
 
 VERIF = os.path.dirname(os.path.dirname(os.path.abspath(__file__)))
 SPEC = os.path.join(VERIF, "spec")
-WORK = os.path.join(VERIF, "work")
+WORK = os.environ.get("VERIF_WORK", os.path.join(VERIF, "work"))
+EVIDENCE = os.environ.get("VERIF_EVIDENCE_DIR", os.path.join(VERIF, "evidence"))
 REPO = os.environ.get("BITBYBIT_REPO", "/repo")
 sys.path.insert(0, os.path.join(VERIF, "gen"))
 import rustgen  # noqa: E402
@@ -174,7 +175,7 @@ def write_crate(name, main_rs, lib=False, with_rt=True, extra_files=None):
     write_if_changed(os.path.join(d, "Cargo.toml"), cargo_toml("c-" + name, lib))
     lock = os.path.join(d, "Cargo.lock")
     if not os.path.exists(lock):
-        shutil.copy(os.path.join(REPO, "Cargo.lock"), lock)
+        shutil.copy(os.path.join(VERIF, "harness", "Cargo.lock"), lock)
     write_if_changed(os.path.join(d, "src", "lib.rs" if lib else "main.rs"), main_rs)
     if with_rt:
         write_if_changed(os.path.join(d, "src", "rt.rs"), open(os.path.join(VERIF, "harness", "rt.rs")).read())
@@ -326,10 +327,10 @@ def events_until(shard, line_no):
 
 # --------------------------------------------------------------------------------------- evidence
 def write_evidence(pid, tier, seed, level, coverage, assumptions, wall, violations=0):
-    os.makedirs(os.path.join(VERIF, "evidence"), exist_ok=True)
+    os.makedirs(EVIDENCE, exist_ok=True)
     ev = {"property_id": pid, "tier": tier, "seed": seed, "level": level, "coverage": coverage,
           "assumptions": assumptions, "wall_s": round(wall, 2), "violations": violations}
-    json.dump(ev, open(os.path.join(VERIF, "evidence", pid + ".json"), "w"), indent=1, sort_keys=True)
+    json.dump(ev, open(os.path.join(EVIDENCE, pid + ".json"), "w"), indent=1, sort_keys=True)
 
 
 def known_findings():
